@@ -6,9 +6,11 @@ package main
 
 import (
 	"bytes"
+	"encoding/json"
 	"fmt"
 	"math"
 	"math/big"
+	"os"
 	"strconv"
 	"strings"
 
@@ -18,6 +20,11 @@ import (
 
 var lastTier int
 var sawWide bool
+var (
+	scanSeen, scanNeg, scanTrunc, scanOK bool
+	scanM                                uint64
+	scanX, scanN                         int
+)
 
 // concMode: several goroutines run the observers at once; the path hook and its
 // globals are switched off so that the harness itself shares nothing.
@@ -26,6 +33,12 @@ var concMode bool
 func init() {
 	fp.VerifPath = func(t int) { lastTier = t }
 	fp.VerifWide = func() { sawWide = true }
+	// hook H4: what readFloat extracted, kept for the first conversion after a reset
+	fp.VerifScan = func(m uint64, x int, neg, trunc bool, n int, ok bool) {
+		if !scanSeen {
+			scanSeen, scanM, scanX, scanNeg, scanTrunc, scanN, scanOK = true, m, x, neg, trunc, n, ok
+		}
+	}
 }
 
 func bitsWords(v float64) []int { return encF(v) }
@@ -44,11 +57,19 @@ func runFloat(sw *shardWriter, j *jb, input []byte, st *genStats) (tier int, wid
 		j.ints(append([]int{k, b2i(err == nil), p}, bitsWords(v)...))
 	}
 	if !concMode {
-		lastTier, sawWide = 0, false
+		lastTier, sawWide, scanSeen = 0, false, false
 	}
 	guardPanic(&panics, func() { v, p, err := rjson.ReadFloat64(input); row(1, err, p, v) })
+	var scan []int // decimal digits of the mantissa, then exp, neg, trunc, n, ok
 	if !concMode {
 		tier, wide = lastTier, sawWide
+		if scanSeen {
+			for _, ch := range strconv.FormatUint(scanM, 10) {
+				scan = append(scan, int(ch-'0'))
+			}
+			scan = append(scan, scanX, b2i(scanNeg), b2i(scanTrunc), scanN, b2i(scanOK))
+		}
+		scanSeen = true // later conversions of this event are not recorded
 	}
 	guardPanic(&panics, func() {
 		v := -12345.678
@@ -77,6 +98,8 @@ func runFloat(sw *shardWriter, j *jb, input []byte, st *genStats) (tier int, wid
 	j.int(tier)
 	j.raw(`,"wide":`)
 	j.b01(wide)
+	j.raw(`,"scan":`)
+	j.ints(scan)
 	j.raw(`,"panics":`)
 	j.int(panics)
 	j.raw(`,"unch":`)
@@ -205,6 +228,18 @@ func genFloats(c *genCtx) error {
 		if rp(4) == 0 {
 			emit(" \t" + s)
 			emit("-" + s)
+		}
+	}
+	// 0. one witness literal per abstract class of the scanner model (MC_FloatScan, emitted by TLC)
+	if c.statesPath != "" {
+		lits, err := loadFloatLits(c.statesPath)
+		if err != nil {
+			return err
+		}
+		for _, l := range lits {
+			emit(string(l))
+			emit(string(l) + ",")
+			c.st.Extra["spec_class_witnesses"]++
 		}
 	}
 	// 1. halfway points between adjacent floats, and their neighbours
@@ -396,6 +431,24 @@ func genFloats(c *genCtx) error {
 		withFollow(string(g.num(nil)))
 	}
 	return nil
+}
+
+func loadFloatLits(path string) ([][]byte, error) {
+	b, err := os.ReadFile(path)
+	if err != nil {
+		return nil, err
+	}
+	var raw [][]int
+	if err := json.Unmarshal(b, &raw); err != nil {
+		return nil, err
+	}
+	out := make([][]byte, len(raw))
+	for i, r := range raw {
+		for _, x := range r {
+			out[i] = append(out[i], byte(x))
+		}
+	}
+	return out, nil
 }
 
 func init() {
